@@ -8,3 +8,5 @@ func remarshal(in interface{}, out interface{}) {
 	b, _ := jsonMarshal(in)
 	_ = jsonUnmarshal(b, out)
 }
+
+var worldOptsNone = worldOpts()
